@@ -49,8 +49,8 @@ def run(prog, tier):
     c, padv = prog.method("ParallelTempering", "advance")
 
     def w_ts(n, ex, env):
-        if U(n.func) == "self.take_steps" and len(n.args) == 1:
-            return ex.need_r(ex.eval(n.args[0], env))
+        if U(n.func) == "self.take_steps" and len(n.args) + len(n.keywords) == 1:
+            return ex.need_r(ex.eval(n.args[0] if n.args else n.keywords[0].value, env))
         return None
     obs.append(_trip(prog, c, padv, w_ts, padv.args.args[1].arg, "steps per chain (sum of take_steps arguments)"))
     # EnsembleSampler.advance: iterations x one __advance_all
@@ -115,7 +115,15 @@ def run(prog, tier):
         en = Enumerator(classify, compound, mcmc.self_inliner(prog, ci), unroll=unroll, depth=2)
         paths = en.function(fn)
         normal = [ev for ev, s in paths if s == RETURN]
-        bad = [ev for ev in normal if not (count(ev, "INC_LEN") == 1 and count(ev, "APPEND_P") == 1)]
+        def paired(ev):
+            if count(ev, "APPEND_P") != 1:
+                return False
+            if count(ev, "INC_LEN") == 1 and count(ev, "SET_LEN") == 0:
+                return True
+            # `chain_length = len(self.probs)` AFTER the append of the step: the length is the stored count by construction
+            kinds = [e[0] for e in ev if e[0] in ("APPEND_P", "SET_LEN", "INC_LEN")]
+            return count(ev, "INC_LEN") == 0 and count(ev, "SET_LEN") >= 1 and kinds[-1] == "SET_LEN"
+        bad = [ev for ev in normal if not paired(ev)]
         msg = ""
         if bad:
             ev = bad[0]
@@ -320,6 +328,11 @@ def _trip(prog, c, fn, weight, param, what, want=None):
             tot, w_ = anf.subst(tot, z_), anf.subst(want, z_)
         forms.append(str(tot))
         if not tot.eq(w_):
+            # a counter known to be zero on this path (`if remaining != 0:` not taken): the totals may differ by a multiple of it
+            zs = [z for z in a.env.get("__zero__", []) if isinstance(z, R)]
+            if any(not z.is_zero() and anf.proportional(trip.apply_div_relations(tot - w_, a.guards), trip.apply_div_relations(z, a.guards)) is not None
+                   for z in zs):
+                continue
             bad.append((a, tot))
     msg = ""
     if bad:
